@@ -138,3 +138,41 @@ def push_sub(t: Term) -> Term:
                 return ("call", b[1], tuple(fn(("sub", a, x[2])) or ("sub", a, x[2]) for a in b[2]), ())
         return None
     return subst(t, fn)
+
+
+class NotEvaluable(Exception):
+    pass
+
+
+def eval_num(t: Term, env: Dict[Term, Any]):
+    """Concrete Python-semantics value of an arithmetic term (used only to turn a failed identity into a witness or to
+    decide small finite domains)."""
+    import math
+    if t in env:
+        return env[t]
+    k = t[0]
+    if k == "const" and isinstance(t[1], (int, float)) and not isinstance(t[1], bool):
+        return t[1]
+    if k == "bin":
+        a, b = eval_num(t[2], env), eval_num(t[3], env)
+        op = t[1]
+        try:
+            return {"+": lambda: a + b, "-": lambda: a - b, "*": lambda: a * b, "/": lambda: a / b, "//": lambda: a // b,
+                    "%": lambda: a % b, "**": lambda: a ** b}[op]()
+        except KeyError:
+            raise NotEvaluable(op)
+        except ZeroDivisionError:
+            raise NotEvaluable("division by zero")
+    if k == "un" and t[1] in ("-", "+"):
+        v = eval_num(t[2], env)
+        return -v if t[1] == "-" else v
+    if k == "call" and isinstance(t[1], str):
+        f = t[1]
+        args = [eval_num(a, env) for a in t[2]]
+        table = {"builtins.round": round, "builtins.int": int, "builtins.float": float, "builtins.abs": abs, "builtins.min": min,
+                 "builtins.max": max, "numpy.floor": math.floor, "math.floor": math.floor, "numpy.ceil": math.ceil,
+                 "math.ceil": math.ceil, "numpy.rint": lambda x: float(round(x)), "numpy.round": round, "numpy.around": round,
+                 "numpy.trunc": math.trunc, "math.trunc": math.trunc, "numpy.abs": abs, "numpy.sqrt": math.sqrt, "math.sqrt": math.sqrt}
+        if f in table and not t[3]:
+            return table[f](*args)
+    raise NotEvaluable(show(t)[:60])
